@@ -155,6 +155,59 @@ func c13eval(r *vx.R, c c13case) {
 		if !v2 {
 			r.Violation(fmt.Sprintf("wrap:VerifyZa:msglen%%64=%d", c.MsgLen%64), fmt.Sprintf("VerifyZa rejects the reference signature (msg %d): %v", c.MsgLen, e2), c)
 		}
+		// records: za is the head of a longer buffer - the key material follows it inside its capacity (za || priv for the
+		// signer, za || pubx || puby for the verifier), as when both are fields of one session structure; a mismatched but
+		// valid public key handed to Sign (the signature binds the key it was GIVEN); the empty id spelled nil
+		{
+			sigRec := append(append([]byte{}, zaRef[:]...), k[0]...)
+			verRec := append(append(append([]byte{}, zaRef[:]...), k[1]...), k[2]...)
+			keepS, keepV := append([]byte{}, sigRec...), append([]byte{}, verRec...)
+			var rr, ss []byte
+			var ee error
+			var vv bool
+			kind, m = vx.Try(func() {
+				rr, ss, ee = sm2.SignZa(stream(kk), sigRec[32:], sigRec[:32], msg)
+				vv, _ = sm2.VerifyZa(verRec[32:64], verRec[64:], verRec[:32], msg, want.R, want.S)
+			})
+			if kind != "" {
+				r.Violation("wrap:record:panic", m, c)
+			} else {
+				if ee != nil || !bytes.Equal(rr, want.R) || !bytes.Equal(ss, want.S) {
+					r.Violation("wrap:record:SignZa", fmt.Sprintf("SignZa with za and the private key as adjacent fields of one buffer (msg %d bytes) differs from the digest-level signature: err=%v", c.MsgLen, ee), c)
+				}
+				if !vv {
+					r.Violation("wrap:record:VerifyZa", fmt.Sprintf("VerifyZa with za and the public key as adjacent fields of one buffer (msg %d bytes) rejects the reference signature", c.MsgLen), c)
+				}
+				if !bytes.Equal(sigRec, keepS) || !bytes.Equal(verRec, keepV) {
+					r.Violation("wrap:record:modified", "SignZa / VerifyZa wrote into the caller's buffer behind za", c)
+				}
+			}
+			if c.MsgLen%16 == 3 || c.MsgLen < 4 {
+				other := c13keys[1-c.Key]
+				zaO, _ := sm2ref.ZA(id, other[1], other[2])
+				eO := sm2ref.E(zaO[:], msg)
+				wantO, errO := sm2ref.Sign(stream(kk), bi(k[0]), eO[:])
+				var ro, so []byte
+				var eo error
+				kind, m = vx.Try(func() { ro, so, eo = sm2.Sign(id, other[1], other[2], stream(kk), k[0], msg) })
+				if kind != "" {
+					r.Violation("wrap:foreign-key:panic", m, c)
+				} else if errO == nil && (eo != nil || !bytes.Equal(ro, wantO.R) || !bytes.Equal(so, wantO.S)) {
+					r.Violation("wrap:Sign:foreign-public-key", fmt.Sprintf("Sign(id, pubx, puby, ..) with a valid public key that does not belong to the private key is not SignHashed on e=SM3(ZA(id,pubx,puby)||M): err=%v", eo), c)
+				}
+			}
+			if c.IDLen == 0 {
+				zaN, _ := sm2ref.ZA(nil, k[1], k[2])
+				for name, idv := range map[string][]byte{"nil": nil, "empty": {}, "zero-length-of-buffer": c13idBuf[:0]} {
+					var z []byte
+					var ze error
+					kind, m = vx.Try(func() { z, ze = sm2.ZA(idv, k[1], k[2]) })
+					if kind != "" || ze != nil || !bytes.Equal(z, zaN[:]) {
+						r.Violation("za:empty-id:"+name, fmt.Sprintf("ZA of the zero-length id passed as %s is not SM3(0x0000||a||b||G||P): %x %v %s", name, z, ze, m), c)
+					}
+				}
+			}
+		}
 		// binding: a different message or id must not verify
 		if c.MsgLen > 0 {
 			m2 := append([]byte{}, msg...)
@@ -175,7 +228,7 @@ func c13eval(r *vx.R, c c13case) {
 }
 
 func TestVX_C13(t *testing.T) {
-	r := vx.Begin("C13", "za-wrappers", "ZA for every id length 0..8200 plus {16384, 65535, 65536} with two public keys against SM3ref(ENTL||id||a||b||Gx||Gy||x||y) (refusal exactly from 8192 bytes); Sign/SignZa/SignHashed under one nonce stream and Verify/VerifyZa for every message length 0..200 x id length {0,16,53,54,8191} (thorough: 0..300 x {0,1,16,52,53,54,55,118,8191}) against sm2ref on e=SM3ref(ZAref||M); message and id binding; before every case the same buffers serve another user and the process makes other uses of the hash package (one-shot SumSM3, an abandoned hash object) and failing calls; [thorough] SignZa/VerifyZa on messages of 2^29-33, 2^29-32 and 2^29 zero bytes (bit length of ZA||M crossing 2^32). Shape=(function, id length, message length, key)")
+	r := vx.Begin("C13", "za-wrappers", "ZA for every id length 0..8200 plus {16384, 65535, 65536} with two public keys against SM3ref(ENTL||id||a||b||Gx||Gy||x||y) (refusal exactly from 8192 bytes); Sign/SignZa/SignHashed under one nonce stream and Verify/VerifyZa for every message length 0..200 x id length {0,16,53,54,8191} (thorough: 0..300 x {0,1,16,52,53,54,55,118,8191}) against sm2ref on e=SM3ref(ZAref||M); message and id binding; za passed as the head of a record with the key material behind it; Sign with a valid public key that does not belong to the private key; the empty id spelled nil / empty / zero-length slice; before every case the same buffers serve another user and the process makes other uses of the hash package (one-shot SumSM3, an abandoned hash object) and failing calls; [thorough] SignZa/VerifyZa on messages of 2^29-33, 2^29-32 and 2^29 zero bytes (bit length of ZA||M crossing 2^32). Shape=(function, id length, message length, key)")
 	defer r.End()
 	selfCheck()
 	if raw, ok := vx.Replay("za-wrappers"); ok {
